@@ -197,7 +197,7 @@ def main() -> int:
     if not rp:
         ghost = predicted - observed_failing
         if ghost:
-            raise E.MachineryError("unconfirmed model counterexamples (Impl layer fails the property, the real library does not): %s" % sorted(ghost)[:5])
+            rep.note("drift: model counterexamples the real library does not show (the Impl transcription over the extracted tables and the code disagree; the verdict is the observed one): %s" % sorted(ghost)[:5])
         extra = observed_failing - predicted
         if extra:
             rep.note("observed failures the Impl transcription does not predict: %s" % sorted(extra)[:5])
